@@ -282,6 +282,9 @@ func (e *Envelope) Extract() interface{} {
 // Correct will attempt to build a new envelope as a correction of the
 // current envelope contents, if possible.
 func (e *Envelope) Correct(opts ...schema.Option) (*Envelope, error) {
+	if e.Document == nil || e.Document.IsEmpty() {
+		return nil, ErrNoDocument
+	}
 	if e.Head != nil && len(e.Head.Stamps) > 0 {
 		// never append into the caller's slice
 		opts = append(opts[:len(opts):len(opts)], head.WithHead(e.Head))
@@ -306,6 +309,9 @@ func (e *Envelope) Correct(opts ...schema.Option) (*Envelope, error) {
 // document so that they can issue a new version with updated details, or
 // simply use the original as a template.
 func (e *Envelope) Replicate() (*Envelope, error) {
+	if e.Document == nil || e.Document.IsEmpty() {
+		return nil, ErrNoDocument
+	}
 	nd, err := e.Document.Clone()
 	if err != nil {
 		return nil, wrapError(err)
